@@ -800,3 +800,14 @@ def c02_m(ctx):
     if n < 4:
         ctx.undecided('expected the four known sites of the submission counter, found {}'
                       .format(n))
+
+
+@obligation('C02-n', 'T1 T11', 'model-based samplers (BSL, BOLFIRE): the first batch of a round is '
+            'not prepared while batches of the previous round are outstanding, and "first batch '
+            'of a round" is decided from the batch index (shared with C20-n)', floor=2,
+            necessary='a round barrier decided from the number of results received so far lets '
+                      'batches of the next round through with the stale parameter value when '
+                      'several batches are in flight: the result depends on the client')
+def c02_n(ctx):
+    from .C20 import c20_n
+    c20_n(ctx)
